@@ -230,23 +230,25 @@ def stepSimple (st : Stmt) (ns : List Nat) (bs : List UInt8) (h : Heap) (env : E
   | .call _ _ _ _ => (h, env)
   | .ret _ _ => (h, env)
 
-/-- run the statements named by the trace; the result is the final heap and the returned D / C memory -/
-def run (prog : List FuncIR) : Trace → FuncIR → Heap → Env → Heap × Val × Val
-  | .done, _, h, _ => (h, [], [])
+/-- run the statements named by the trace; the result is the final heap, the returned D / C memory and
+the registers at the point where the execution stopped (every prefix of a trace is a trace, so a
+statement about the final registers of all traces is a statement about every point of every execution) -/
+def run (prog : List FuncIR) : Trace → FuncIR → Heap → Env → Heap × Val × Val × Env
+  | .done, _, h, env => (h, [], [], env)
   | .ev idx ns bs sub rest, f, h, env =>
     match f.body[idx]? with
     | none => run prog rest f h env
-    | some (.ret ds cs) => (h, ds.flatMap env, cs.flatMap env)
+    | some (.ret ds cs) => (h, ds.flatMap env, cs.flatMap env, env)
     | some (.call xd xc g args) =>
         match prog[g]? with
         | none => run prog rest f h env
         | some gf =>
             let r := run prog sub gf h (argEnv gf.tracked env args)
-            run prog rest f r.1 (upd (upd env xd r.2.1) xc r.2.2)
+            run prog rest f r.1 (upd (upd env xd r.2.1) xc r.2.2.1)
     | some st => run prog rest f (stepSimple st ns bs h env).1 (stepSimple st ns bs h env).2
 
 /-- a call of `f` from outside: `args r` is the memory parameter register `r` addresses -/
-def runFn (prog : List FuncIR) (f : FuncIR) (t : Trace) (h : Heap) (args : Env) : Heap × Val × Val :=
+def runFn (prog : List FuncIR) (f : FuncIR) (t : Trace) (h : Heap) (args : Env) : Heap × Val × Val × Env :=
   run prog t f h (fun r => if f.tracked.contains r then args r else [])
 
 end BtcVerif.Model.SliceHeap
